@@ -112,6 +112,9 @@ class StoreModel:
         if PERSISTED(kind):
             self.stored[o] = gen
         s['mem'][o] = gen
+        if o in s['forced']:
+            s['forced'].discard(o)   # "its NEXT value request executes run again, exactly once": the forced computation is done
+            s.setdefault('done', set()).add(o)
         return gen
 
     def tforce(self, slot, fn, delete):
@@ -121,7 +124,23 @@ class StoreModel:
         if delete:
             self.stored.pop(o, None)
         s['forced'].add(o)
+        s.get('done', set()).discard(o)
         s['mem'].pop(o, None)
+
+    def abstract(self):
+        """what the reference remembers, up to renaming of generations: part of the canonical state of the explorer. Two histories are
+        merged only if the implementation state AND this are equal - otherwise a defect that consists in the implementation
+        forgetting something the reference still knows (two reference states, one implementation state) would be merged away"""
+        out = []
+        for slot, s in sorted(self.slots.items()):
+            objs = set(s['mem']) | set(s['forced']) | set(s.get('done', ()))
+            out.append((slot, sorted((repr(o), o in s['mem'], s['mem'].get(o) == self.stored.get(o, GONE), o in s['forced'], o in s.get('done', ())) for o in objs)))
+        return [out, sorted(repr(o) for o in self.stored), sorted(repr(o) for o in self.last_failed)]
+
+    def reset(self, slot, fn):
+        """Task.reset_data(): the object forgets the value it holds (nothing else)"""
+        s = self.slots[slot]
+        s['mem'].pop(self.obj(s['model'], fn), None)
 
     def cforce(self, slot, fns, recompute, delete):
         s = self.slots[slot]
@@ -154,8 +173,12 @@ class StoreModel:
         return self.obj(m, fn) in self.stored
 
     def is_forced(self, slot, fn):
+        """True / False; None where the statement leaves it open (forced and recomputed since: the mark has done its work)"""
         s = self.slots[slot]
-        return self.obj(s['model'], fn) in s['forced']
+        o = self.obj(s['model'], fn)
+        if o in s['forced']:
+            return True
+        return None if o in s.get('done', ()) else False
 
     def in_memory(self, slot, fn):
         s = self.slots[slot]
@@ -253,6 +276,14 @@ class Exec:
                 import traceback
 
                 obs.update(term=None, gen=None, error=f'{type(e).__name__}: {e}', fault=False, tb=traceback.format_exc()[-1500:])
+        elif kind == 'reset':
+            _, slot, fn = op
+            self.model.reset(slot, fn)
+            try:
+                self.slots[slot].tasks[fn].reset_data()
+                obs['error'] = None
+            except Exception as e:  # noqa
+                obs['error'] = f'{type(e).__name__}: {e}'
         elif kind == 'tforce':
             _, slot, fn, delete = op
             self.model.tforce(slot, fn, delete)
@@ -379,7 +410,7 @@ class Exec:
                 st.append((fn, t._data is not None, bool(t._forced), seen.setdefault(id(t), fn), _shallow(t), _shallow(t._data) if t._data is not None else None))
             slots[slot] = (self.model.slots[slot]['vid'], st)
         handlers = self._file_handlers()
-        return digest([files, slots, sorted(self.world.rt.faults.items()), handlers])
+        return digest([files, slots, sorted(self.world.rt.faults.items()), handlers, self.model.abstract()])
 
     def _file_handlers(self):
         import logging
@@ -453,6 +484,9 @@ def alphabet(desc, hist, spec):
             for fn in (spec.get('force_tasks') or {}).get(vid, tasks):
                 for delete in spec.get('delete_flags', (False, True)):
                     ops.append(['tforce', slot, fn, delete])
+        if 'reset' in enabled:
+            for fn in (spec.get('force_tasks') or {}).get(vid, tasks):
+                ops.append(['reset', slot, fn])
         if 'cforce' in enabled:
             for fns in spec['force_sets'][vid]:
                 for rec, dele in spec.get('cforce_flags', ((False, False), (True, False), (False, True), (True, True))):
